@@ -50,6 +50,29 @@ def main():
         head = sh(["git", "-C", wt, "rev-parse", "--short", "HEAD"])[1].strip()
         res["repo_head"] = head
         demo = os.path.join(seed, "demo_test.go")
+        if not os.path.exists(demo) and os.path.exists(os.path.join(seed, "demo", "main.go")):
+            # a demo program (exit 0 = property holds): wrap it into a test placed at the root of the worktree
+            src = open(os.path.join(seed, "demo", "main.go")).read()
+            open(demo, "w").write("""package main_test
+
+import (
+	"os"
+	"os/exec"
+	"testing"
+)
+
+const seedDemoMain = """ + "`" + src.replace("`", "` + \"`\" + `") + "`" + """
+
+func TestSeedDemoMain(t *testing.T) {
+	os.MkdirAll("zz_seed_demo_main", 0o755)
+	defer os.RemoveAll("zz_seed_demo_main")
+	os.WriteFile("zz_seed_demo_main/main.go", []byte(seedDemoMain), 0o644)
+	out, err := exec.Command("go", "run", "./zz_seed_demo_main").CombinedOutput()
+	if err != nil {
+		t.Fatalf("%v\\n%s", err, out)
+	}
+}
+""")
         dst, rel, tests = place_demo(wt, demo)
         rc, out = run_demo(wt, rel, tests)
         res["steps"]["demo_without_change"] = "pass" if rc == 0 else "FAIL: " + out[-600:]
